@@ -280,6 +280,7 @@ def run(ctx, rep):
     # branch range declares an object that straddles the limit "in range", no thunk is allocated and the link of a valid program fails.
     conservative_range(ctx, rep, F, P)
     block_reach(ctx, rep, F, P)
+    block_selection_agreement(ctx, rep, F, P)
     rep.assume("thunk placement (block positions vs. object sizes) is a runtime quantity and is not decided; the Adr/Add field encoders are decided by C13")
 
 
@@ -387,3 +388,57 @@ def block_reach(ctx, rep, F, P):
                f"distance = <item>.2 (end) - {subtrahend}" if ok else
                f"distance = {minuend} - {subtrahend}: measured from {'the start' if comp and comp.group(1) == '1' else 'something other than the end'} of the object - an object that starts within reach of the "
                "block but ends beyond it keeps using that block, and the branches in its tail cannot reach their thunks (the link fails with an out-of-range error)", b.file, line)
+
+
+def block_selection_agreement(ctx, rep, F, P):
+    """Which thunk block serves a branch is decided twice: when thunks are *allocated* (thunks::handle_thunk_extensions_for_relocation: the referring section's
+    part == the primary function part -> the object's own block, anything else -> FIRST) and when the branch is *written* (maybe_get_thunk_for_relocation).
+    The two must use the same test on the same kind of value (PartId against config.primary_function_part_id), otherwise the writer looks for the thunk in a
+    block where none was allocated ("no thunk allocated") or picks one that is out of reach."""
+    import re
+    import decide
+    rep.rule("block-selection-agreement", "allocation time and write time choose the thunk block with the same test: PartId == thunk_config().primary_function_part_id, compared "
+             "directly (no mapping of the part ids to sections or anything coarser on either side)")
+    tests = {}
+    for key in ("libwild::thunks::handle_thunk_extensions_for_relocation", "libwild::elf_writer::maybe_get_thunk_for_relocation"):
+        b = F.body(key)
+        if b is None:
+            rep.lost("block-selection-agreement", key)
+            return
+        full = decide.all_edge_atoms_full(P, F, b)
+        atoms = sorted({str(a) for a, _t in full.values() if "primary_function_part_id" in str(a)})
+        tests[key] = (b, atoms)
+    for key, (b, atoms) in tests.items():
+        name = key.split("::")[-1]
+        def top_args(a):
+            inner = a[a.index("(") + 1:-1]
+            out, depth, cur = [], 0, ""
+            for ch in inner:
+                if ch == "(":
+                    depth += 1
+                elif ch == ")":
+                    depth -= 1
+                if ch == "," and depth == 0:
+                    out.append(cur.strip())
+                    cur = ""
+                else:
+                    cur += ch
+            out.append(cur.strip())
+            return out
+
+        def is_direct(a):
+            if not re.match(r"call:PartialEq::(eq|ne)\(", a):
+                return False
+            ops = top_args(a)
+            if len(ops) != 2:
+                return False
+            lhs, rhs = ops
+            rhs_ok = rhs.endswith(".primary_function_part_id") and rhs.replace("thunk_config()", "").count("(") == 0
+            lhs_ok = lhs.count("(") == 0 or lhs.startswith("part_id_for_symbol(")
+            return rhs_ok and lhs_ok
+        direct = [a for a in atoms if is_direct(a)]
+        wrapped = [a for a in atoms if a not in direct]
+        rep.ob("block-selection-agreement", name, bool(direct) and not wrapped,
+               f"{name} tests {direct}" if direct and not wrapped else
+               f"{name} compares something derived from the part ids ({wrapped}) instead of the part ids themselves: sections that share an output section but not the "
+               "primary part (e.g. `.text` input sections with a different alignment) are classified differently from the other side", b.file, b.line)
